@@ -86,8 +86,13 @@ impl<'de> Deserialize<'de> for Amt {
 /// All members through the paged `ListMembers` query of either group contract (the two query
 /// enums serialise identically for this variant). Err = the listing failed or does not terminate.
 pub fn list_members(w: &World, contract: &str, page: u32) -> Result<Vec<Member>, String> {
+    list_members_from(w, contract, None, page)
+}
+
+/// the paged listing continued from a caller-chosen cursor (any valid address, member or not)
+pub fn list_members_from(w: &World, contract: &str, start_after: Option<String>, page: u32) -> Result<Vec<Member>, String> {
     let mut out: Vec<Member> = vec![];
-    let mut cursor: Option<String> = None;
+    let mut cursor: Option<String> = start_after;
     loop {
         let p: MemberListResponse = w.query(
             contract,
@@ -218,6 +223,14 @@ pub fn check_notifications(
         let mut chain: BTreeMap<&String, (Option<u64>, Option<u64>)> = BTreeMap::new();
         let mut broken = false;
         for d in &n.diffs {
+            // an entry is the report of one step of one touched address: an address that was no
+            // member before the step and is none after it was not touched by it
+            if d.old.is_none() && d.new.is_none() {
+                out.push(Violation::new(
+                    "C14.diff_names_only_touched_addresses",
+                    format!("{what}: entry {{{}, old: None, new: None}} (notification to {})", pretty(&d.key), pretty(&n.target)),
+                ));
+            }
             if !listed.contains(&d.key) {
                 out.push(Violation::new(
                     "C14.entry_names_untouched_address",
